@@ -141,6 +141,9 @@ inductive Site
   | forCoerceBool     -- eval/stmt.rs coerce_loop_value: `_ => TypeMismatch`
   | exitOutsideLoop   -- eval/stmt.rs Stmt::Exit / Stmt::Continue with loop_depth = 0
   | programFlow       -- runtime/cycle.rs execute_program: body result other than Continue
+  | callArgCount      -- eval/mod.rs prepare_bindings: positional call with the wrong number of arguments
+  | callBindTarget    -- eval/mod.rs prepare_bindings: OUT / IN_OUT argument that is not an l-value
+  | callUndefined     -- eval/expr/eval.rs Expr::Call: no function / instance of that name
   | budget            -- eval/stmt.rs check_execution_budget (model: fuel exhausted)
   | latched           -- runtime/cycle.rs execute_cycle: resource already faulted
   deriving DecidableEq, Repr, Inhabited
